@@ -76,6 +76,9 @@ func TemplateFromCert(ctx context.Context, cert *x509.Certificate, pubKey any) (
 
 	template.Subject.CommonName = subjectCn
 	template.Subject.SerialNumber = subjectSerial.String()
+	// The certificate's own serial follows the subject serial, as in the Google template; keeping the
+	// copied one would give two certificates of one issuer the same serial number.
+	template.SerialNumber = subjectSerial
 	template.NotBefore = timestamp
 	template.NotAfter = timestamp.Add(time.Duration(styp.SignValidDays) * 24 * time.Hour)
 	return &template, nil
